@@ -385,21 +385,18 @@ theorem zero_components_reinserted (m M : List ℝ) (h : IsFeed m M) :
     scatter (mask m) (moleFrac (gather (mask m) m) (gather (mask m) M)) = moleFrac m M :=
   scatter_moleFrac m M h.1 h.2.1
 
-/-- **Mass back-conversion conserves every component** (`_partial`: under the hypothesis `hne` that
-    the gas and liquid mole fractions of the FIRST non-zero component differ, i.e. its K ≠ 1 — without
-    it the statement is false, see `masses_not_conserved_when_first_K_is_one`).
-    For rows of the non-zero components that obey the material balance with some β ∈ [0,1]:
-    m_gas,i + m_liq,i = m_i, m_gas,i ≥ 0, m_liq,i ≥ 0 for EVERY component i of the full feed,
-    including the removed zero-mass components (index beyond the list: 0 + 0 = 0). -/
-theorem masses_conserved_partial (m M : List ℝ) (o : MMOut ℝ) (h : IsFeed m M)
+/-- **Mass back-conversion conserves every component.**
+    For rows of the non-zero components that obey the material balance with the gas fraction β ∈ [0,1]
+    returned with them: m_gas,i + m_liq,i = m_i, m_gas,i ≥ 0, m_liq,i ≥ 0 for EVERY component i of the
+    full feed, including the removed zero-mass components (index beyond the list: 0 + 0 = 0). -/
+theorem masses_conserved (m M : List ℝ) (o : MMOut ℝ) (h : IsFeed m M)
     (hrl : o.xg.length = o.xl.length) (hβ0 : 0 ≤ o.beta) (hβ1 : o.beta ≤ 1)
     (hg : ∀ x ∈ o.xg, 0 ≤ x) (hlq : ∀ x ∈ o.xl, 0 ≤ x)
     (hbal : List.zipWith (fun g l => o.beta * g + (1 - o.beta) * l) o.xg o.xl
-      = moleFrac (gather (mask m) m) (gather (mask m) M))
-    (hne : o.xg.getD 0 0 ≠ o.xl.getD 0 0) (i : Nat) :
+      = moleFrac (gather (mask m) m) (gather (mask m) M)) (i : Nat) :
     (equilibriumPost m M o).mg.getD i 0 + (equilibriumPost m M o).ml.getD i 0 = m.getD i 0 ∧
     0 ≤ (equilibriumPost m M o).mg.getD i 0 ∧ 0 ≤ (equilibriumPost m M o).ml.getD i 0 := by
-  obtain ⟨e1, e2, e3⟩ := equilibriumPost_masses m M o h.1 h.2.1 h.2.2.1 h.2.2.2 hrl hβ0 hbal hne i
+  obtain ⟨e1, e2, e3⟩ := equilibriumPost_masses m M o h.1 h.2.1 h.2.2.1 h.2.2.2 hrl hbal i
   have hN := (vdiv_sum_pos m M h.1 h.2.1 h.2.2.1 h.2.2.2).le
   have hMi : 0 ≤ M.getD i 0 := getD_nonneg M (fun x hx => (h.2.2.1 x hx).le) i
   refine ⟨e3, ?_, ?_⟩
@@ -408,13 +405,12 @@ theorem masses_conserved_partial (m M : List ℝ) (o : MMOut ℝ) (h : IsFeed m 
   · rw [e2]
     exact mul_nonneg (mul_nonneg (getD_nonneg _ (scatter_nonneg _ _ hlq) i) (mul_nonneg (by linarith) hN)) hMi
 
-/-- the whole chain: rows produced by the phase-split solve for ANY positive K, any fuel, on the
-    non-zero components of a feed, converted back by `equilibrium` -/
-theorem flash_masses_conserved_partial (m M K : List ℝ) (fuel : Nat) (h : IsFeed m M) (hK : AllPos K)
+/-- the whole chain: rows and gas fraction produced by the phase-split solve for ANY positive K, any
+    fuel, on the non-zero components of a feed, converted back by `equilibrium` — every component is
+    conserved and both phase masses are non-negative -/
+theorem flash_masses_conserved (m M K : List ℝ) (fuel : Nat) (h : IsFeed m M) (hK : AllPos K)
     (hlen : (gather (mask m) m).length = K.length)
-    (hfeed' : IsFeed (gather (mask m) m) (gather (mask m) M))
-    (hne : (gasLiqEq (gather (mask m) m) (gather (mask m) M) K fuel).xg.getD 0 0
-         ≠ (gasLiqEq (gather (mask m) m) (gather (mask m) M) K fuel).xl.getD 0 0) (i : Nat) :
+    (hfeed' : IsFeed (gather (mask m) m) (gather (mask m) M)) (i : Nat) :
     let r := gasLiqEq (gather (mask m) m) (gather (mask m) M) K fuel
     let e := equilibriumPost m M ⟨r.xg, r.xl, r.beta, some K⟩
     e.mg.getD i 0 + e.ml.getD i 0 = m.getD i 0 ∧ 0 ≤ e.mg.getD i 0 ∧ 0 ≤ e.ml.getD i 0 := by
@@ -425,10 +421,10 @@ theorem flash_masses_conserved_partial (m M K : List ℝ) (fuel : Nat) (h : IsFe
   obtain ⟨b0, b1⟩ := rr_beta_mem _ K fuel hzl (comp_le_one hz)
   obtain ⟨n1, n2⟩ := rr_rows_nonneg _ K fuel hzl hz hK
   have hl := rows_length (moleFrac (gather (mask m) m) (gather (mask m) M)) K r.beta hzl
-  exact masses_conserved_partial m M ⟨r.xg, r.xl, r.beta, some K⟩ h (by
+  exact masses_conserved m M ⟨r.xg, r.xl, r.beta, some K⟩ h (by
       show (rows _ K r.beta).1.length = (rows _ K r.beta).2.length
       rw [hl.1, hl.2]) b0 b1 n1 n2
-    (rr_material_balance _ K fuel hzl (comp_le_one hz) hK) hne i
+    (rr_material_balance _ K fuel hzl (comp_le_one hz) hK) i
 
 /-- single-phase rows: a gas-labelled result puts ALL the mass of every component in the gas row, a
     liquid-labelled one in the liquid row -/
@@ -439,47 +435,31 @@ theorem single_phase_masses (m M : List ℝ) (h : IsFeed m M) (i : Nat) :
     ((equilibriumPost m M ⟨zeros zp, zp, 0, none⟩).mg.getD i 0 = 0 ∧
      (equilibriumPost m M ⟨zeros zp, zp, 0, none⟩).ml.getD i 0 = m.getD i 0) := by
   intro zp
-  have hpos := moleFrac_gather_head_pos m M h.1 h.2.1 h.2.2.1 h.2.2.2
   constructor
   · obtain ⟨e1, e2, e3⟩ := equilibriumPost_masses m M ⟨zp, zeros zp, 1, none⟩ h.1 h.2.1 h.2.2.1 h.2.2.2
-      (zeros_length zp).symm (by norm_num) (zipWith_beta_one zp)
-      (by show zp.getD 0 0 ≠ (zeros zp).getD 0 0; rw [zeros_getD]; exact hpos.ne') i
+      (zeros_length zp).symm (zipWith_beta_one zp) i
     have hz : (equilibriumPost m M ⟨zp, zeros zp, 1, none⟩).ml.getD i 0 = 0 := by rw [e2]; ring
     exact ⟨by rw [← e3, hz]; ring, hz⟩
   · obtain ⟨e1, e2, e3⟩ := equilibriumPost_masses m M ⟨zeros zp, zp, 0, none⟩ h.1 h.2.1 h.2.2.1 h.2.2.2
-      (zeros_length zp) (by norm_num) (zipWith_beta_zero zp)
-      (by show (zeros zp).getD 0 0 ≠ zp.getD 0 0; rw [zeros_getD]; exact hpos.ne) i
+      (zeros_length zp) (zipWith_beta_zero zp) i
     have hz : (equilibriumPost m M ⟨zeros zp, zp, 0, none⟩).mg.getD i 0 = 0 := by rw [e1]; ring
     exact ⟨hz, by rw [← e3, hz]; ring⟩
 
-/-- **"The gas moles do not depend on the component you pick" (comment at l.703-705) is FALSE** when
-    the first non-zero component has K = 1: z = (⅓,⅓,⅓), K = (1,2,½) has the two-phase solution
-    β = ½, x_gas = (⅓,4/9,2/9), x_liq = (⅓,2/9,4/9) (both rows sum to one, x_gas = K x_liq, material
-    balance holds) — and the back-conversion returns m_gas = 0 and m_liq = (1, ⅔, 4/3) for the feed
-    m = (1,1,1): component 2 loses a third of its mass.  (In the model 0/0 = 0; the real code computes
-    0/0 = NaN, and for K_1 = 1 ± 2e-16 finite garbage including negative masses: reproduced by the
-    harness on the real `FluidMixture.equilibrium`.) -/
-theorem masses_not_conserved_when_first_K_is_one :
-    ∃ (m M : List ℝ) (o : MMOut ℝ), IsFeed m M ∧ 0 < o.beta ∧ o.beta < 1 ∧
-      o.xg.sum = 1 ∧ o.xl.sum = 1 ∧ o.xg = List.zipWith (fun k l => k * l) [1, 2, 1/2] o.xl ∧
-      List.zipWith (fun g l => o.beta * g + (1 - o.beta) * l) o.xg o.xl
-        = moleFrac (gather (mask m) m) (gather (mask m) M) ∧
-      (equilibriumPost m M o).mg.getD 1 0 + (equilibriumPost m M o).ml.getD 1 0 ≠ m.getD 1 0 := by
-  refine ⟨[1, 1, 1], [1, 1, 1], ⟨[1/3, 4/9, 2/9], [1/3, 2/9, 4/9], 1/2, some [1, 2, 1/2]⟩,
-    ⟨rfl, ?_, ?_, ⟨1, by simp, by norm_num⟩⟩, by norm_num, by norm_num, by norm_num, by norm_num, ?_, ?_, ?_⟩
-  · intro x hx; simp at hx; rw [hx]; norm_num
-  · intro x hx; simp at hx; rw [hx]; norm_num
-  · norm_num
-  · have hm : mask ([1, 1, 1] : List ℝ) = [true, true, true] := by
-      rw [mask_cons_pos _ _ one_pos, mask_cons_pos _ _ one_pos, mask_cons_pos _ _ one_pos, mask_nil]
-    rw [hm, moleFrac_real]
-    simp only [gather, Num.vdiv]
-    norm_num
-  · have hm : mask ([1, 1, 1] : List ℝ) = [true, true, true] := by
-      rw [mask_cons_pos _ _ one_pos, mask_cons_pos _ _ one_pos, mask_cons_pos _ _ one_pos, mask_nil]
-    simp only [equilibriumPost, backConvert, hm, scatter, firstIdx, Num.vdiv, Num.vmul, Num.real_sum,
-      Num.real_abs, Num.real_zero]
-    norm_num
+/-- **About the formula the code used before commit 87c9b6c** (gas moles from the material balance of
+    the first non-zero component, "independent of which component you pick" according to its comment):
+    it equals β·N only when that component's two mole fractions differ, and is FALSE otherwise —
+    z = (⅓,⅓,⅓), K = (1,2,½) has the two-phase solution β = ½, x_gas = (⅓,4/9,2/9), x_liq = (⅓,2/9,4/9)
+    (`witness_rows_are_rr_solution`), N = 3, and the old formula gives 0 gas moles instead of 3/2, so
+    that component 2 would lose a third of its mass.  (The real code computed 0/0 = NaN there, and
+    negative masses for K_1 = 1 ± 2e-16; it is kept as a targeted case of the harness.) -/
+theorem old_first_component_formula :
+    (∀ N β ni xgi xli : ℝ, 0 ≤ N → 0 ≤ β → N * (β * xgi + (1 - β) * xli) = ni → xgi ≠ xli →
+      ngFirstComponent N ni xgi xli = β * N) ∧
+    (∃ N β ni xgi xli : ℝ, 0 < N ∧ 0 < β ∧ β < 1 ∧ N * (β * xgi + (1 - β) * xli) = ni ∧
+      ngFirstComponent N ni xgi xli ≠ β * N) := by
+  refine ⟨ngFirstComponent_eq, 3, 1/2, 1, 1/3, 1/3, by norm_num, by norm_num, by norm_num, by norm_num, ?_⟩
+  unfold ngFirstComponent
+  norm_num
 
 /-! ## 4. Phase label and single-phase clean-up at the end of `equil_MM` -/
 
@@ -580,7 +560,7 @@ example : ∃ xg xl fg fl K : List ℝ, ∃ P : ℝ, (kUpdate xg xl fg fl P).get
   ⟨[1/2], [1/4], [3], [3], [2], 10, by simp [kUpdate]; norm_num, by norm_num, by norm_num, by norm_num, by norm_num,
     by norm_num⟩
 
-/-- the rows of the witness above ARE what the phase-split solve returns for z = (⅓,⅓,⅓),
+/-- the rows quoted above ARE what the phase-split solve returns for z = (⅓,⅓,⅓),
     K = (1,2,½), with any fuel ≥ 1 (one pass: g = 0 at the first guess β = ½) -/
 theorem witness_rows_are_rr_solution (fuel : Nat) :
     (gasLiqEqZ ([1/3, 1/3, 1/3] : List ℝ) [1, 2, 1/2] (fuel + 1)).beta = 1 / 2 ∧
@@ -619,15 +599,13 @@ example : IsComposition [1/3, 1/3, 1/3] ∧ AllPos [2, 1, 1/2] ∧ ([1/3, 1/3, 1
   · intro x hx; simp at hx; rw [hx]; norm_num
   · intro x hx; simp at hx; rcases hx with rfl | rfl | rfl <;> norm_num
 
-/-- the hypotheses of `masses_conserved_partial` are met by a feed with a removed zero-mass component and
-    the two-phase rows x_gas = (4/9,1/3,2/9), x_liq = (2/9,1/3,4/9), β = ½ of z = (⅓,⅓,⅓), K = (2,1,½) (first
-    kept component has K = 2 ≠ 1) -/
+/-- the hypotheses of `masses_conserved` are met by a feed with a removed zero-mass component and the
+    two-phase rows x_gas = (4/9,1/3,2/9), x_liq = (2/9,1/3,4/9), β = ½ of z = (⅓,⅓,⅓), K = (2,1,½) -/
 example : ∃ (m M : List ℝ) (o : MMOut ℝ), IsFeed m M ∧ o.xg.length = o.xl.length ∧ 0 ≤ o.beta ∧ o.beta ≤ 1 ∧
     (∀ x ∈ o.xg, 0 ≤ x) ∧ (∀ x ∈ o.xl, 0 ≤ x) ∧
-    List.zipWith (fun g l => o.beta * g + (1 - o.beta) * l) o.xg o.xl = moleFrac (gather (mask m) m) (gather (mask m) M) ∧
-    o.xg.getD 0 0 ≠ o.xl.getD 0 0 := by
+    List.zipWith (fun g l => o.beta * g + (1 - o.beta) * l) o.xg o.xl = moleFrac (gather (mask m) m) (gather (mask m) M) := by
   refine ⟨[1, 0, 1, 1], [1, 5, 1, 1], ⟨[4/9, 1/3, 2/9], [2/9, 1/3, 4/9], 1/2, some [2, 1, 1/2]⟩,
-    ⟨rfl, ?_, ?_, ⟨1, by simp, by norm_num⟩⟩, rfl, by norm_num, by norm_num, ?_, ?_, ?_, by norm_num⟩
+    ⟨rfl, ?_, ?_, ⟨1, by simp, by norm_num⟩⟩, rfl, by norm_num, by norm_num, ?_, ?_, ?_⟩
   · intro x hx; simp at hx; rcases hx with rfl | rfl | rfl <;> norm_num
   · intro x hx; simp at hx; rcases hx with rfl | rfl | rfl <;> norm_num
   · intro x hx; simp at hx; rcases hx with rfl | rfl | rfl <;> norm_num
